@@ -458,6 +458,63 @@ def enum_paths(stmts: Sequence[ast.AST], cap: int = 10000) -> List[Path]:
     return paths
 
 
+def resolve_flags(paths: List[Path]) -> List[Path]:
+    """Boolean flags are read as what they were last set to on the path: a test `if flag:` (or `not flag`) where `flag`
+    was assigned earlier on the same path becomes a test of the assigned expression; a path on which a flag holding a
+    constant is tested against that constant's negation is infeasible and dropped.  Exact along a single path as long
+    as the operands of the assigned expression are not rebound in between (checked)."""
+    out = []
+    for p in paths:
+        env: Dict[str, ast.AST] = {}
+        events = []
+        feasible = True
+        for ev in p.events:
+            if ev[0] == "s":
+                st = ev[1]
+                if isinstance(st, ast.Assign) and len(st.targets) == 1 and isinstance(st.targets[0], ast.Name):
+                    v = st.value
+                    if isinstance(v, (ast.Compare, ast.BoolOp, ast.Constant, ast.UnaryOp, ast.Call, ast.Name)):
+                        # read the value through earlier flags as well
+                        if isinstance(v, ast.Name) and v.id in env:
+                            v = env[v.id]
+                        env[st.targets[0].id] = v
+                    else:
+                        env.pop(st.targets[0].id, None)
+                    # an operand rebound: flags computed from it are no longer known
+                    for k in list(env):
+                        if k != st.targets[0].id and any(isinstance(x, ast.Name) and x.id == st.targets[0].id for x in ast.walk(env[k])):
+                            env.pop(k)
+                else:
+                    for x in ast.walk(st):
+                        if isinstance(x, ast.Name) and isinstance(x.ctx, ast.Store):
+                            env.pop(x.id, None)
+                            for k in list(env):
+                                if any(isinstance(y, ast.Name) and y.id == x.id for y in ast.walk(env[k])):
+                                    env.pop(k)
+                events.append(ev)
+            elif ev[0] == "c":
+                t, pol = ev[1], ev[2]
+                inner, neg = t, False
+                while isinstance(inner, ast.UnaryOp) and isinstance(inner.op, ast.Not):
+                    inner, neg = inner.operand, not neg
+                if isinstance(inner, ast.Name) and inner.id in env:
+                    val = env[inner.id]
+                    if isinstance(val, ast.Constant) and isinstance(val.value, bool):
+                        if (val.value != neg) != pol:
+                            feasible = False
+                            break
+                        continue                      # a test that is decided: no information
+                    new_t = ast.copy_location(ast.UnaryOp(ast.Not(), val), t) if neg else val
+                    events.append(("c", new_t, pol, ev[3]) if len(ev) > 3 else ("c", new_t, pol))
+                else:
+                    events.append(ev)
+            else:
+                events.append(ev)
+        if feasible:
+            out.append(Path(events, p.end, p.end_node))
+    return out
+
+
 def _enum(stmts, cap) -> List[Path]:
     partial: List[List] = [[]]
     done: List[Path] = []
